@@ -5,7 +5,7 @@
 
    item: [pb |-> stored path as bytes (directories end in '/'), comps |-> its components,
           ty |-> "file" | "dir" | "link" | "unsafe", size, crc, mtime (<<hi, lo>> or <<-1>> = not
-          guaranteed), mode (-1 = not guaranteed), traw |-> link target]
+          guaranteed), mode (-1 = not guaranteed), traw |-> link target, hp |-> permissions are recorded]
    opts: [flat |-> option i, wd |-> components of w=DIR (<<>> = none), policy |-> "prompt" | "all"]
    pre:  files present beforehand [comps, size, crc, mode]
    answers: first byte of each line typed on stdin (10 = empty line)
@@ -17,7 +17,9 @@
      - missing parent directories are created with mode 0755 (umask 022)
      - a file that already exists is replaced only if the policy says so: `all` (options f, q), or
        the answer at the prompt: y = this one, a = this and all further ones, n / empty line = keep,
-       s = keep this and all further ones, anything else = ask again
+       s = keep this and all further ones, anything else = ask again; end of input at the prompt ends
+       the tool at once (exit status 255): nothing further is extracted and directories still open keep
+       the mode they were created with
      - a directory that already exists (because a file was there before, or because a wildcard selected a
        member below it before its own entry) keeps its mode and time: its entry changes nothing
      - links replace whatever non-directory was there; links with absolute or '..' targets are outside
@@ -40,8 +42,7 @@ RECURSIVE Ask(_, _)
 Ask(policy, ans) ==
   IF policy = "all" THEN [go |-> TRUE, policy |-> policy, ans |-> ans]
   ELSE IF policy = "skip" THEN [go |-> FALSE, policy |-> policy, ans |-> ans]
-  ELSE IF ans = <<>> THEN [go |-> FALSE, policy |-> "starved", ans |-> ans]  \* (end of input at the prompt ends the tool: not modelled, the
-                                                                            \*  harness always types enough answers; see Starved)
+  ELSE IF ans = <<>> THEN [go |-> FALSE, policy |-> "eof", ans |-> ans]      \* end of input at the prompt: the tool exits on the spot
   ELSE LET c == Lower(Head(ans)) IN
        CASE c = 121 -> [go |-> TRUE, policy |-> "prompt", ans |-> Tail(ans)]
          [] c \in {110, 10} -> [go |-> FALSE, policy |-> "prompt", ans |-> Tail(ans)]
@@ -49,29 +50,50 @@ Ask(policy, ans) ==
          [] c = 115 -> [go |-> FALSE, policy |-> "skip", ans |-> Tail(ans)]
          [] OTHER -> Ask(policy, Tail(ans))
 
-Step(base, opts, st, it) ==
-  IF st.policy = "starved" THEN st
-  ELSE IF opts.flat /\ it.ty = "dir" THEN st
+(* Directories are extracted in two stages (lib/lha_reader.c): created at once - with mode 0700 if permissions are
+   recorded, so that a read-only directory can still be filled - and given their recorded mode and time when the first
+   entry arrives whose stored directory part does not begin with the directory's stored path (a comparison of bytes, as
+   the code does it), or at the end of the archive.  `stack` holds the directories created and not yet completed. *)
+DirPart(pb) == LET sl == {i \in 1..Len(pb) : pb[i] = 47} IN
+               IF sl = {} THEN <<>> ELSE SubSeq(pb, 1, CHOOSE i \in sl : \A j \in sl : j <= i)
+BytesPrefix(a, b) == Len(a) <= Len(b) /\ SubSeq(b, 1, Len(a)) = a
+Complete(t, d) == IF d.loc \in DOMAIN t /\ t[d.loc].ty = "dir" THEN Put(t, d.loc, DirNodeX(d.mode, d.mtime)) ELSE t
+\* completes the directories on top of the stack that do not contain the entry whose directory part is dp (dp = <<-1>>: all)
+RECURSIVE PopWhile(_, _, _)
+PopWhile(t, stack, dp) ==
+  IF stack = <<>> \/ (dp # <<-1>> /\ BytesPrefix(Head(stack).pb, dp)) THEN [tree |-> t, stack |-> stack]
+  ELSE PopWhile(Complete(t, Head(stack)), Tail(stack), dp)
+
+Step(base, opts, filters, st, it) ==
+  IF st.policy = "eof" THEN st
   ELSE
-  LET loc == base \o opts.wd \o (IF opts.flat THEN <<it.comps[Len(it.comps)]>> ELSE it.comps)
-      nd  == [ty |-> it.ty, size |-> it.size, crc |-> it.crc, mtime |-> it.mtime, mode |-> it.mode, traw |-> it.traw]
-      t1  == WithParents(st.tree, base, loc)
-  IN IF it.ty = "dir" /\ loc \in DOMAIN st.tree /\ st.tree[loc].ty = "dir"
-     THEN st          \* ExistingDirLeftAlone: mkdir fails with EEXIST, the directory keeps its mode and time (extract_directory)
-     ELSE IF it.ty = "file" /\ loc \in DOMAIN st.tree /\ st.tree[loc].ty = "file"
-     THEN LET a == Ask(st.policy, st.ans)
-          IN [tree |-> IF a.go THEN Put(t1, loc, nd) ELSE st.tree, policy |-> a.policy, ans |-> a.ans]
-     ELSE [st EXCEPT !.tree = Put(t1, loc, nd)]
+  LET pp  == PopWhile(st.tree, st.stack, DirPart(it.pb))
+      s1  == [st EXCEPT !.tree = pp.tree, !.stack = pp.stack]
+  IN IF ~Selected(filters, it.pb) THEN s1
+     ELSE IF opts.flat /\ it.ty = "dir" THEN s1
+     ELSE
+     LET loc == base \o opts.wd \o (IF opts.flat THEN <<it.comps[Len(it.comps)]>> ELSE it.comps)
+         nd  == [ty |-> it.ty, size |-> it.size, crc |-> it.crc, mtime |-> it.mtime, mode |-> it.mode, traw |-> it.traw]
+         t1  == WithParents(s1.tree, base, loc)
+     IN IF it.ty = "dir"
+        THEN IF loc \in DOMAIN s1.tree /\ s1.tree[loc].ty = "dir"
+             THEN s1     \* ExistingDirLeftAlone: mkdir fails with EEXIST, the directory keeps its mode and time (extract_directory)
+             ELSE [s1 EXCEPT !.tree = Put(t1, loc, DirNodeX(IF it.hp THEN 448 ELSE 493, ANYT)),
+                             !.stack = <<[loc |-> loc, pb |-> it.pb, mode |-> it.mode, mtime |-> it.mtime]>> \o @]
+        ELSE IF it.ty = "file" /\ loc \in DOMAIN s1.tree /\ s1.tree[loc].ty = "file"
+        THEN LET a == Ask(s1.policy, s1.ans)
+             IN [s1 EXCEPT !.tree = IF a.go THEN Put(t1, loc, nd) ELSE s1.tree, !.policy = a.policy, !.ans = a.ans]
+        ELSE [s1 EXCEPT !.tree = Put(t1, loc, nd)]
 
 ModelTree(base, items, opts, filters, pre, answers) ==
-  LET sel  == SelectSeq(items, LAMBDA it : Selected(filters, it.pb))
-      t0   == FoldLeft(LAMBDA a, p : Put(WithParents(a, base, base \o p.comps), base \o p.comps,
+  LET t0   == FoldLeft(LAMBDA a, p : Put(WithParents(a, base, base \o p.comps), base \o p.comps,
                                          [ty |-> "file", size |-> p.size, crc |-> p.crc, mtime |-> ANYT, mode |-> p.mode, traw |-> ""]),
                        << >>, pre)
       \* (the directory given with w= is created, with its parents, by the first entry extracted into it)
-  IN FoldLeft(LAMBDA st, it : Step(base, opts, st, it), [tree |-> t0, policy |-> opts.policy, ans |-> answers], sel)
+      fin  == FoldLeft(LAMBDA st, it : Step(base, opts, filters, st, it), [tree |-> t0, policy |-> opts.policy, ans |-> answers, stack |-> <<>>], items)
+  IN IF fin.policy = "eof" THEN fin       \* the tool is gone: directories still open keep their provisional mode
+     ELSE [fin EXCEPT !.tree = PopWhile(fin.tree, fin.stack, <<-1>>).tree, !.stack = <<>>]
 
-Starved(base, items, opts, filters, pre, answers) == ModelTree(base, items, opts, filters, pre, answers).policy = "starved"
 NodeMatches(x, got) ==
   /\ (IF x.ty = "unsafe" THEN got.ty \in {"file", "link"} ELSE got.ty = x.ty)
   /\ (x.ty = "file" => (got.size = x.size /\ got.crc = x.crc))
